@@ -1,4 +1,5 @@
-CONSTANTS MaxMut = 1  SetAll = TRUE
+CONSTANTS MaxMut = 1  SetMode = "interesting"
+  Kinds = {"Truncate", "FlipBit", "SetByte", "AddToByte", "CorruptPkgLen", "Splice", "Join"}
 INIT Init
 NEXT Next
 INVARIANT PlanOK
